@@ -17,7 +17,10 @@ RULE = ("partition (exhaustive): for every n in 1..64 (quick) / 1..400 (thorough
         "min(effective jobs, n) of them. locality: for a generated trained neighbourhood bandit and n <= 7 query rows "
         "with a seed vector, _predict_contexts run per chunk for EVERY composition of n (n <= 5) or drawn compositions, "
         "on pickled copies per chunk (process-like) and on the same object in a drawn chunk order (thread-like), "
-        "concatenated, must equal the whole-batch result. schedule: joblib.Parallel inside mabwiser is replaced by an "
+        "concatenated, must equal the whole-batch result; in half of the cases the chunk tasks are additionally run as "
+        "threads on one shared object, switched at every Python-level call inside mabwiser according to a generated "
+        "schedule (one thread at a time: deterministic). Metrics include seuclidean / mahalanobis, whose parameters are "
+        "estimated from the rows they are given. schedule: joblib.Parallel inside mabwiser is replaced by an "
         "executor that runs the tasks of each call in a generated order (all 24 orders when <= 4 arms in the thorough "
         "tier), sharedmem tasks on shared state with their write sets recorded (a per-arm fit task may only write its "
         "own arm's entries, a per-hash insert task only [table][hash]), other tasks on shared state or pickled copies; "
